@@ -62,7 +62,9 @@ func (s *Sim) advance(t time.Duration) {
 			tm.fireReal(s)
 			s.Counters[CtTimersFired]++
 			if tm.period > 0 {
-				tm.at += tm.period
+				// a ticker that fell several periods behind delivers one tick
+				// (its channel holds one; the runtime drops the others as well)
+				tm.at += ((s.now-tm.at)/tm.period + 1) * tm.period
 			} else {
 				tm.dead = true
 			}
